@@ -72,6 +72,13 @@ def bounded_task(seed):
     return Task(f"{PROP}.Bd.reader", PROP, "reader", run)
 
 
+def _ics():
+    return fixedform.inline_comment_start(PROP)
+
+
+_ics.__name__ = "inline_comment_start"
+
+
 def call_site_task():
     """FortranReader.__init__ hands its length_limit setting to the converter (a call-site obligation: the converter's contract is stated per limit)"""
     def run():
@@ -95,7 +102,7 @@ def call_site_task():
 
 def build(tier, seed):
     set_tier(tier)
-    tasks = [a_task(PROP, _analyse), call_site_task(), bounded_task(seed)]
+    tasks = [a_task(PROP, _analyse), a_task(PROP, _ics), call_site_task(), bounded_task(seed)]
     meta = {
         "trusted_base": TRUSTED_BASE,
         "assumptions": PYVC_ASSUMPTIONS + [
@@ -103,7 +110,8 @@ def build(tier, seed):
             "self.__convert() does not change the classification flags",
             "the label / excess_line / line_conv strings are opaque to the proof (built strings are outside the scanned-string encoding)",
         ],
-        "functions_under_contract": fn_meta([("ford.fixed2free2", "FortranLine.__analyse", "string-building statements are executed with opaque values")]),
+        "functions_under_contract": fn_meta([("ford.fixed2free2", "FortranLine.__analyse", "string-building statements are executed with opaque values"),
+                                             ("ford.fixed2free2", "_inline_comment_start", None)]),
         "unverified_surroundings": ["FortranLine.__convert / continueLine (built strings)", "convertToFree (generator)", "composition with the free-form reader "
                                     "(bounded stand-in only)", "continuation breaks inside a token or literal (FORD inserts a blank at every break: stated limit)"],
         "explanation": "The fixed-form line classifier is proved, for lines of any length, to implement the column rules: comment iff column 1 is one of cC*! "
